@@ -55,8 +55,13 @@ REFUSED_KEYS = [("brdf_incoming_directions", "restore_refused_partial_materials"
                 ("energy_init_source", "restore_refused_stale_cache")]
 
 
-def refused_key(e):
+def refused_key(e, model_check=None):
+    """key of a refused restore.  The listed findings are states which the object's own check()
+    rejects ON THE PINNED CODE -- the model of check() (Object.ocheck) says so too; a refusal of a state
+    the model accepts is something else and is never attributed to them."""
     msg = str(e)
+    if model_check == "Ok":
+        return "restore_refused_unexpected:%s" % msg.split(" ")[0][:40]
     if isinstance(e, ValueError):
         for frag, key in REFUSED_KEYS:
             if msg.startswith(frag):
@@ -110,6 +115,10 @@ def case(spec):
     def fail(test, what, **kw):
         out["prop_failures"].append(dict(test=test, what=what, case=tag, **kw))
 
+    def mcheck(i):
+        m = getattr(env, "last_model", None)
+        return m[i].get("check") if m and i < len(m) else None
+
     def hook(i, op, cls, x_before, x, snap, obs_hash):
         where = "after #%d %s" % (i, op[0])
         count("op_%s" % op[0])
@@ -143,7 +152,7 @@ def case(spec):
         try:
             y = R.from_dict(x.to_dict())
         except Exception as e:  # noqa: BLE001
-            fail(refused_key(e), "%s: from_dict(to_dict(x)) raises %s: %s" % (where, type(e).__name__, str(e)[:80]))
+            fail(refused_key(e, mcheck(i)), "%s: from_dict(to_dict(x)) raises %s: %s" % (where, type(e).__name__, str(e)[:80]))
             y = None
         if y is not None:
             twin["ok_roundtrips"] += 1
@@ -152,7 +161,7 @@ def case(spec):
             try:
                 z = M.file_roundtrip(env, x, compress=bool(rng.random() < 0.5))
             except Exception as e:  # noqa: BLE001
-                fail(refused_key(e), "%s: from_read(write(x)) raises %s: %s" % (where, type(e).__name__, str(e)[:80]))
+                fail(refused_key(e, mcheck(i)), "%s: from_read(write(x)) raises %s: %s" % (where, type(e).__name__, str(e)[:80]))
                 z = None
             if z is not None:
                 check_restored(env, x, z, where + " via file", fail)
